@@ -203,3 +203,264 @@ Proof.
   intros n o H. unfold join. cbn [flat_map]. rewrite app_nil_r. induction H as [|m o Hm H IH]; [reflexivity|].
   cbn [flat_map]. rewrite compat_empty by exact Hm. rewrite merge_empty by exact Hm. cbn [app]. f_equal. exact IH.
 Qed.
+
+(** * triple patterns produce well-formed mappings *)
+
+Lemma bind_length : forall v x m m', bind v x m = Some m' -> length m' = length m.
+Proof.
+  induction v as [|v IH]; intros x m m' H; destruct m as [|c r]; cbn [bind] in H; try discriminate.
+  - destruct c as [y|]; [destruct (term_eqb x y); [injection H as <-; reflexivity|discriminate]|injection H as <-; reflexivity].
+  - destruct (bind v x r) as [r'|] eqn:E; [|discriminate]. injection H as <-. cbn [length]. f_equal. eapply IH. exact E.
+Qed.
+
+Lemma match_pos_length : forall p x m m', match_pos p x m = Some m' -> length m' = length m.
+Proof.
+  intros [v|c] x m m' H; cbn [match_pos] in H.
+  - eapply bind_length. exact H.
+  - destruct (term_eqb c x); [injection H as <-; reflexivity|discriminate].
+Qed.
+
+Lemma empty_sol_length : forall n, length (empty_sol n) = n.
+Proof. intro n. unfold empty_sol. apply repeat_length. Qed.
+
+Lemma match_tp_wf : forall n tp t m, match_tp n tp t = Some m -> wf n m.
+Proof.
+  intros n tp t m H. unfold match_tp in H.
+  destruct (match_pos (tp_s tp) (t_s t) (empty_sol n)) as [m1|] eqn:E1; [|discriminate].
+  destruct (match_pos (tp_p tp) (t_p t) m1) as [m2|] eqn:E2; [|discriminate].
+  apply match_pos_length in E1, E2, H. unfold wf. rewrite H, E2, E1. apply empty_sol_length.
+Qed.
+
+Lemma eval_tp_wf : forall n g tp, Forall (wf n) (eval_tp n g tp).
+Proof.
+  intros n g tp. unfold eval_tp. apply Forall_flat_map. intros t _.
+  destruct (match_tp n tp t) as [m|] eqn:E; [|constructor]. constructor; [|constructor]. eapply match_tp_wf. exact E.
+Qed.
+
+(** * a BGP is the join of its triple patterns, in any order *)
+
+Definition fold_join (os : list (list sol)) (acc : list sol) : list sol :=
+  fold_left (fun a o => join a o) os acc.
+
+Lemma eval_bgp_fold : forall n g tps, eval_bgp n g tps = fold_join (map (eval_tp n g) tps) [empty_sol n].
+Proof.
+  intros n g tps. unfold eval_bgp, fold_join. generalize [empty_sol n] as acc.
+  induction tps as [|tp tps IH]; intro acc; cbn [fold_left map]; [reflexivity|]. apply IH.
+Qed.
+
+Lemma fold_join_wf : forall n os acc, Forall (Forall (wf n)) os -> Forall (wf n) acc -> Forall (wf n) (fold_join os acc).
+Proof.
+  intros n os. induction os as [|o os IH]; intros acc H Ha; cbn [fold_join fold_left]; [exact Ha|].
+  inversion H as [|? ? Ho Hos]; subst. apply IH; [exact Hos|]. apply join_wf; assumption.
+Qed.
+
+Lemma fold_join_perm_acc : forall os acc acc', Permutation acc acc' ->
+  Permutation (fold_join os acc) (fold_join os acc').
+Proof.
+  induction os as [|o os IH]; intros acc acc' H; cbn [fold_join fold_left]; [exact H|].
+  apply IH. apply join_perm_l. exact H.
+Qed.
+
+Lemma fold_join_perm : forall n os os', Permutation os os' -> Forall (Forall (wf n)) os ->
+  forall acc, Forall (wf n) acc -> Permutation (fold_join os acc) (fold_join os' acc).
+Proof.
+  intros n os os' HP. induction HP as [|o os os' HP IH|a b os|os1 os2 os3 HP1 IH1 HP2 IH2]; intros Hw acc Ha.
+  - apply Permutation_refl.
+  - cbn [fold_join fold_left]. inversion Hw as [|? ? Ho Hos]; subst. apply IH; [exact Hos|]. apply join_wf; assumption.
+  - cbn [fold_join fold_left]. inversion Hw as [|? ? Hb Hw1]; subst. inversion Hw1 as [|? ? Haa Hos]; subst.
+    apply fold_join_perm_acc.
+    rewrite (join_assoc_l n acc b a) by assumption. rewrite (join_assoc_l n acc a b) by assumption.
+    apply join_perm_r. apply (join_comm_l n); assumption.
+  - eapply Permutation_trans; [apply IH1; assumption|]. apply IH2; [|exact Ha].
+    eapply Permutation_Forall; eassumption.
+Qed.
+
+Lemma bgp_order_irrelevant_l : forall n g tps tps', Permutation tps tps' ->
+  Permutation (eval_bgp n g tps) (eval_bgp n g tps').
+Proof.
+  intros n g tps tps' H. rewrite !eval_bgp_fold. apply (fold_join_perm n).
+  - apply Permutation_map. exact H.
+  - apply Forall_forall. intros o Ho. apply in_map_iff in Ho. destruct Ho as [tp [<- _]]. apply eval_tp_wf.
+  - constructor; [apply empty_sol_length|constructor].
+Qed.
+
+Lemma eval_bgp_wf : forall n g tps, Forall (wf n) (eval_bgp n g tps).
+Proof.
+  intros n g tps. rewrite eval_bgp_fold. apply fold_join_wf.
+  - apply Forall_forall. intros o Ho. apply in_map_iff in Ho. destruct Ho as [tp [<- _]]. apply eval_tp_wf.
+  - constructor; [apply empty_sol_length|constructor].
+Qed.
+
+(** a BGP split in two is the Join of the two parts (what a group of two groups means) *)
+Lemma fold_join_app : forall os1 os2 acc, fold_join (os1 ++ os2) acc = fold_join os2 (fold_join os1 acc).
+Proof. intros os1 os2 acc. unfold fold_join. apply fold_left_app. Qed.
+
+Lemma fold_join_assoc : forall n os acc o, Forall (Forall (wf n)) os -> Forall (wf n) acc -> Forall (wf n) o ->
+  fold_join os (join acc o) = join acc (fold_join os o).
+Proof.
+  intros n os. induction os as [|x os IH]; intros acc o Hw Ha Ho; cbn [fold_join fold_left]; [reflexivity|].
+  inversion Hw as [|? ? Hx Hos]; subst. fold (fold_join os (join (join acc o) x)). fold (fold_join os (join o x)).
+  rewrite (join_assoc_l n acc o x) by assumption. apply IH; [exact Hos|exact Ha|]. apply join_wf; assumption.
+Qed.
+
+Lemma bgp_split_l : forall n g tps1 tps2,
+  eval_bgp n g (tps1 ++ tps2) = join (eval_bgp n g tps1) (eval_bgp n g tps2).
+Proof.
+  intros n g tps1 tps2. rewrite !eval_bgp_fold, map_app, fold_join_app.
+  set (A := fold_join (map (eval_tp n g) tps1) [empty_sol n]).
+  assert (HA : Forall (wf n) A).
+  { apply fold_join_wf; [|constructor; [apply empty_sol_length|constructor]].
+    apply Forall_forall. intros o Ho. apply in_map_iff in Ho. destruct Ho as [tp [<- _]]. apply eval_tp_wf. }
+  assert (HW : Forall (Forall (wf n)) (map (eval_tp n g) tps2)).
+  { apply Forall_forall. intros o Ho. apply in_map_iff in Ho. destruct Ho as [tp [<- _]]. apply eval_tp_wf. }
+  assert (E : A = join A [empty_sol n]).
+  { clear HW. induction HA as [|m A Hm HA IH]; [reflexivity|]. unfold join in *. cbn [flat_map].
+    rewrite compat_sym, compat_empty by exact Hm.
+    rewrite merge_comm; [|rewrite empty_sol_length; exact Hm|rewrite compat_sym; apply compat_empty; exact Hm].
+    rewrite merge_empty by exact Hm. cbn [app]. f_equal. exact IH. }
+  rewrite E at 1. apply (fold_join_assoc n); [exact HW|exact HA|]. constructor; [apply empty_sol_length|constructor].
+Qed.
+
+(** * LeftJoin (OPTIONAL) *)
+
+Lemma filter_flat_map : forall {A B} (p : B -> bool) (f : A -> list B) l,
+  filter p (flat_map f l) = flat_map (fun x => filter p (f x)) l.
+Proof.
+  intros A B p f l. induction l as [|x l IH]; [reflexivity|]. cbn [flat_map]. rewrite filter_app, IH. reflexivity.
+Qed.
+
+Lemma flat_map_if_filter : forall {A} (p : A -> bool) l,
+  flat_map (fun x => if p x then [x] else []) l = filter p l.
+Proof.
+  intros A p l. induction l as [|x l IH]; [reflexivity|]. cbn [flat_map filter]. rewrite IH. destruct (p x); reflexivity.
+Qed.
+
+(** the solutions of the left side that have no extension satisfying the condition *)
+Definition no_extension (c : option expr) (o2 : list sol) (m1 : sol) : bool :=
+  forallb (fun m2 => negb (compat m1 m2 && holds_opt c (merge m1 m2))) o2.
+
+Lemma left_join_spec_l : forall c o1 o2,
+  Permutation (left_join c o1 o2)
+              (filter (holds_opt c) (join o1 o2) ++ filter (no_extension c o2) o1).
+Proof.
+  intros c o1 o2. unfold left_join, join.
+  rewrite filter_flat_map. rewrite <- (flat_map_if_filter (no_extension c o2) o1).
+  rewrite <- flat_map_app_f. apply flat_map_perm_ext. intros m1 _.
+  rewrite filter_flat_map.
+  assert (E : flat_map (fun m2 => if compat m1 m2 && holds_opt c (merge m1 m2) then [merge m1 m2] else []) o2
+            = flat_map (fun m2 => filter (holds_opt c) (if compat m1 m2 then [merge m1 m2] else [])) o2).
+  { apply flat_map_ext_in. intros m2 _. destruct (compat m1 m2); cbn [andb filter]; [|reflexivity].
+    destruct (holds_opt c (merge m1 m2)); reflexivity. }
+  rewrite <- E. clear E. unfold no_extension.
+  induction o2 as [|m2 o2 IH]; cbn [flat_map forallb]; [apply Permutation_refl|].
+  destruct (compat m1 m2 && holds_opt c (merge m1 m2)); cbn [negb andb app].
+  - rewrite app_nil_r. apply Permutation_refl.
+  - exact IH.
+Qed.
+
+(** * FILTER commutes with Join when its variables are bound on the left *)
+
+Lemma eval_expr_ext : forall e m m', (forall v, In v (expr_vars e) -> nth v m None = nth v m' None) ->
+  eval_expr m e = eval_expr m' e.
+Proof.
+  induction e as [v|t|o a IHa b IHb|a IHa b IHb|a IHa b IHb|a IHa|v]; intros m m' H; cbn [eval_expr expr_vars] in *.
+  - rewrite (H v (or_introl eq_refl)). reflexivity.
+  - reflexivity.
+  - rewrite (IHa m m'), (IHb m m'); [reflexivity| |]; intros v Hv; apply H; apply in_or_app; auto.
+  - rewrite (IHa m m'), (IHb m m'); [reflexivity| |]; intros v Hv; apply H; apply in_or_app; auto.
+  - rewrite (IHa m m'), (IHb m m'); [reflexivity| |]; intros v Hv; apply H; apply in_or_app; auto.
+  - rewrite (IHa m m'); [reflexivity|]. exact H.
+  - rewrite (H v (or_introl eq_refl)). reflexivity.
+Qed.
+
+Lemma nth_merge : forall m1 m2 v, length m1 = length m2 ->
+  nth v (merge m1 m2) None = cell_merge (nth v m1 None) (nth v m2 None).
+Proof.
+  induction m1 as [|a r1 IH]; destruct m2 as [|b r2]; intros v H; try discriminate.
+  - destruct v; reflexivity.
+  - cbn [merge]. destruct v as [|v]; cbn [nth]; [reflexivity|]. apply IH. injection H as H. exact H.
+Qed.
+
+Lemma filter_push_l : forall n c o1 o2, Forall (wf n) o1 -> Forall (wf n) o2 ->
+  (forall m1 v, In m1 o1 -> In v (expr_vars c) -> nth v m1 None <> None) ->
+  filter (holds c) (join o1 o2) = join (filter (holds c) o1) o2.
+Proof.
+  intros n c o1 o2 H1 H2 Hb. rewrite Forall_forall in H1, H2. unfold join.
+  rewrite filter_flat_map. induction o1 as [|m1 o1 IH]; [reflexivity|]. cbn [flat_map filter].
+  assert (E : filter (holds c) (flat_map (fun m2 => if compat m1 m2 then [merge m1 m2] else []) o2)
+            = if holds c m1 then flat_map (fun m2 => if compat m1 m2 then [merge m1 m2] else []) o2 else []).
+  { rewrite filter_flat_map.
+    assert (G : forall m2, In m2 o2 -> holds c (merge m1 m2) = holds c m1).
+    { intros m2 Hm2. unfold holds. rewrite (eval_expr_ext c (merge m1 m2) m1); [reflexivity|].
+      intros v Hv. rewrite nth_merge by (rewrite (H1 m1 (or_introl eq_refl)), (H2 m2 Hm2); reflexivity).
+      specialize (Hb m1 v (or_introl eq_refl) Hv). destruct (nth v m1 None); [reflexivity|congruence]. }
+    destruct (holds c m1) eqn:Eh.
+    - apply flat_map_ext_in. intros m2 Hm2. destruct (compat m1 m2); [|reflexivity]. cbn [filter]. rewrite (G m2 Hm2). reflexivity.
+    - rewrite (flat_map_ext_in _ (fun _ : sol => @nil sol) o2); [apply flat_map_nil_f|]. intros m2 Hm2.
+      destruct (compat m1 m2); [|reflexivity]. cbn [filter]. rewrite (G m2 Hm2). reflexivity. }
+  rewrite E. rewrite IH.
+  - destruct (holds c m1); reflexivity.
+  - intros m Hm. apply H1. right. exact Hm.
+  - intros m v Hm Hv. apply Hb; [right; exact Hm|exact Hv].
+Qed.
+
+(** * DISTINCT, OFFSET/LIMIT *)
+
+Lemma distinct_by_spec : forall {A} (eqb : A -> A -> bool), (forall x y, eqb x y = true <-> x = y) ->
+  forall l, NoDup (distinct_by eqb l) /\ forall x, In x (distinct_by eqb l) <-> In x l.
+Proof.
+  intros A eqb Heq l. induction l as [|a l [IH1 IH2]]; cbn [distinct_by]; [split; [constructor|tauto]|].
+  split.
+  - constructor; [|apply NoDup_filter; exact IH1]. rewrite filter_In. intros [_ H]. apply negb_true_iff in H.
+    assert (eqb a a = true) by (apply Heq; reflexivity). congruence.
+  - intro x. cbn [In]. rewrite filter_In, IH2. split.
+    + intros [H|[H _]]; auto.
+    + intros [H|H]; [left; exact H|]. destruct (eqb a x) eqn:E; [left; apply Heq; exact E|right; split; [exact H|reflexivity]].
+Qed.
+
+Lemma sol_eqb_eq : forall a b : sol, list_eqb (option_eqb term_eqb) a b = true <-> a = b.
+Proof.
+  induction a as [|x a IH]; destruct b as [|y b]; cbn [list_eqb]; split; intro H; try reflexivity; try discriminate.
+  - apply andb_true_iff in H. destruct H as [H1 H2]. apply IH in H2. subst. f_equal.
+    destruct x as [x|], y as [y|]; cbn [option_eqb] in H1; try discriminate; [apply term_eqb_eq in H1; congruence|reflexivity].
+  - injection H as -> ->. apply andb_true_iff. split; [|apply IH; reflexivity].
+    destruct y as [y|]; cbn [option_eqb]; [apply term_eqb_refl|reflexivity].
+Qed.
+
+Lemma slice_spec : forall {A} off lim (l : list A),
+  slice off lim l = match lim with Some k => firstn k | None => fun x => x end
+                      (match off with Some k => skipn k l | None => l end).
+Proof. intros A [o|] [k|] l; reflexivity. Qed.
+
+Lemma slice_length : forall {A} off lim (l : list A),
+  length (slice off lim l) =
+  let rest := (length l - match off with Some k => k | None => O end)%nat in
+  match lim with Some k => Nat.min k rest | None => rest end.
+Proof.
+  intros A off lim l. unfold slice. cbv zeta.
+  destruct off as [o|]; destruct lim as [k|]; rewrite ?firstn_length, ?skipn_length; lia.
+Qed.
+
+(** * INSERT DATA / DELETE DATA *)
+
+Lemma insert_data_In : forall ts g t, In t (insert_data g ts) <-> In t g \/ In t ts.
+Proof.
+  induction ts as [|u ts IH]; intros g t; cbn [insert_data In]; [tauto|].
+  rewrite IH. destruct (memb u g) eqn:E.
+  - apply memb_In in E. split; [tauto|]. intros [H|[H|H]]; [tauto|subst; tauto|tauto].
+  - rewrite in_app_iff. cbn [In]. split; [intros [[H|[H|[]]]|H]; auto|intros [H|[H|H]]; auto].
+Qed.
+
+Lemma insert_data_NoDup : forall ts g, NoDup g -> NoDup (insert_data g ts).
+Proof.
+  induction ts as [|u ts IH]; intros g H; cbn [insert_data]; [exact H|]. apply IH.
+  destruct (memb u g) eqn:E; [exact H|]. apply NoDup_app_one; [exact H|]. apply memb_false. exact E.
+Qed.
+
+Lemma delete_data_In : forall ts g t, In t (delete_data g ts) <-> In t g /\ ~ In t ts.
+Proof.
+  intros ts g t. unfold delete_data. rewrite filter_In, negb_true_iff, memb_false. tauto.
+Qed.
+
+Lemma delete_data_NoDup : forall ts g, NoDup g -> NoDup (delete_data g ts).
+Proof. intros ts g H. unfold delete_data. apply NoDup_filter. exact H. Qed.
